@@ -62,3 +62,12 @@ Definition classify (c : case) : N :=
   end.
 
 Definition verdicts (cs : list case) : list N := map classify cs.
+
+(* per-query verdicts of one case (for replays) *)
+Definition detail (c : case) : list N :=
+  match process (c_entries c) with
+  | (Ok s, _) => let evs := s_events s in
+                 let recs := repository evs (c_db c) in
+                 map (classify_query (c_exact c) evs (c_db c) recs) (c_queries c)
+  | _ => []
+  end.
